@@ -81,6 +81,16 @@ class Choices:
     def seed(self):
         return self.seed_value
 
+    def iters(self, short, long):
+        """Iteration budget: mostly short; long budgets (which reach iteration-gated paths such as the line
+        search that starts after sweep 5, at a much higher cost) with 12 % (quick tier) / 35 % (thorough)."""
+        import os
+
+        p = 0.35 if os.environ.get("VERIF_TIER_INTERNAL", "quick") == "thorough" else 0.12
+        if self.flag(p):
+            return self.choice(long)
+        return self.choice(short)
+
     # ---------------------------------------------------------------- data
     def rs(self):
         return np.random.RandomState(1000 + self.int(0, 2))
@@ -124,7 +134,8 @@ class Choices:
             for f in facs[1:]:
                 o = np.multiply.outer(o, f[:, r])
             t += o
-        t += 0.01 * rs.random_sample(shape)
+        if self.choice(["noisy", "noisy", "noisy", "exact"]) == "noisy":
+            t += 0.01 * rs.random_sample(shape)  # else exactly low rank: convergence-gated paths (early stop, failed line search)
         out = self.arr(shape, kinds=kinds, rs=rs, signed=False)
         out[...] = t
         return out
@@ -255,7 +266,7 @@ def e_parafac(g):
 
     shape = g.shapeN()
     rank = g.choice([2, 1, 3])
-    kw = dict(tensor=g.low_rank(shape, 2), rank=rank, n_iter_max=g.choice([2, 1, 3, 8]))
+    kw = dict(tensor=g.low_rank(shape, 2), rank=rank, n_iter_max=g.iters([2, 1, 3], [8, 14, 30]))
     _cp_common(g, kw, shape, rank)
     g.opt(kw, "normalize_factors", [True], 0.25)
     g.opt(kw, "orthogonalise", [True, 1], 0.15)
@@ -583,6 +594,19 @@ def e_nn_tucker_hals(g):
 def _slices(g, n, J, sizes, nonneg=False):
     rs = g.rs()
     form = g.choice(["list", "tuple", "tensor"])
+    exact = g.choice([0, 1, 0, 2])  # 0: generic data; r>0: slices of an exact rank-r PARAFAC2 model
+    if exact:
+        from tensorly.random import random_parafac2
+        from tensorly.parafac2_tensor import parafac2_to_slices
+
+        shapes = [(sizes[0] if form == "tensor" else sizes[i % len(sizes)], J) for i in range(n)]
+        model = random_parafac2(shapes, min(exact, J), random_state=np.random.RandomState(11 + g.int(0, 1)))
+        sl = [np.array(x) for x in parafac2_to_slices(model)]
+        if nonneg:
+            sl = [np.abs(x) for x in sl]
+        if form == "tensor":
+            return np.stack(sl)
+        return sl if form == "list" else tuple(sl)
     if form == "tensor":
         return g.arr((n, sizes[0], J), nonneg=nonneg, rs=rs)
     sl = [g.arr((sizes[i % len(sizes)], J), nonneg=nonneg, rs=rs, kinds=("c", "f", "slice", "tview")) for i in range(n)]
@@ -593,11 +617,11 @@ def _slices(g, n, J, sizes, nonneg=False):
 def e_parafac2(g):
     import tensorly.decomposition as D
 
-    rank = g.choice([2, 1])
+    rank = g.choice([2, 1, 3])
     J = g.choice([3, 4])
     n = g.choice([3, 2])
     sizes = g.choice([[4, 4, 4], [4, 3, 5]])
-    kw = dict(tensor_slices=_slices(g, n, J, sizes), rank=rank, n_iter_max=g.choice([2, 1, 3]))
+    kw = dict(tensor_slices=_slices(g, n, J, sizes), rank=rank, n_iter_max=g.iters([2, 1, 3], [40, 12, 100]))
     init = g.choice(["random", "svd", "user"])
     if init == "svd":
         kw["init"] = "svd"
@@ -629,7 +653,7 @@ def e_Parafac2(g):
     import tensorly.decomposition as D
 
     rank = g.choice([2, 1])
-    kw = dict(rank=rank, n_iter_max=2, random_state=g.seed(), return_errors=True)
+    kw = dict(rank=rank, n_iter_max=g.iters([2, 3], [40, 12, 100]), random_state=g.seed(), return_errors=True)
     g.opt(kw, "init", ["svd"], 0.3)
     g.opt(kw, "nn_modes", [[0]], 0.2)
     slices = _slices(g, 3, 3, [4, 4, 4])
@@ -1120,9 +1144,9 @@ def e_inner_outer(g, which):
 def e_mttkrp(g):
     import tensorly.tenalg as T
 
-    shape = g.shape3()
+    shape = g.shapeN()  # orders 2, 3 and 4
     rank = g.choice([2, 1])
-    kw = dict(tensor=g.arr(shape), cp_tensor=g.cp_init(shape, rank), mode=g.int(0, 2))
+    kw = dict(tensor=g.arr(shape), cp_tensor=g.cp_init(shape, rank), mode=g.int(0, len(shape) - 1))
     return dict(fn=T.unfolding_dot_khatri_rao, kwargs=kw)
 
 
@@ -1206,7 +1230,9 @@ _CPFUN = ["cp_normalize", "cp_flip_sign", "cp_to_tensor", "cp_to_unfolded", "cp_
 def e_cpfun(g, which):
     import tensorly.cp_tensor as C
 
-    shape = g.shape3()
+    # tensors of order 2, 3 and 4 (cp_lstsq_grad is documented for third order only)
+    shape = g.shape3() if which == "cp_lstsq_grad" else g.shapeN()
+    nd = len(shape)
     rank = g.choice([2, 1, 3])
     g.notes["which"] = which
     cp = g.cp_init(shape, rank)
@@ -1215,7 +1241,7 @@ def e_cpfun(g, which):
         return dict(fn=C.cp_normalize, kwargs=dict(cp_tensor=cp))
     if which == "cp_flip_sign":
         kw = dict(cp_tensor=cp)
-        g.opt(kw, "mode", [1, 2], 0.4)
+        g.opt(kw, "mode", [1, nd - 1], 0.4)
         if g.flag(0.2):
             import tensorly as tl
 
@@ -1227,13 +1253,13 @@ def e_cpfun(g, which):
             kw["mask"] = g.arr(shape, nonneg=True) > 0.3
         return dict(fn=C.cp_to_tensor, kwargs=kw)
     if which == "cp_to_unfolded":
-        return dict(fn=C.cp_to_unfolded, kwargs=dict(cp_tensor=cp, mode=g.int(0, 2)))
+        return dict(fn=C.cp_to_unfolded, kwargs=dict(cp_tensor=cp, mode=g.int(0, nd - 1)))
     if which == "cp_to_vec":
         return dict(fn=C.cp_to_vec, kwargs=dict(cp_tensor=cp))
     if which == "cp_norm":
         return dict(fn=C.cp_norm, kwargs=dict(cp_tensor=cp))
     if which in ("cp_mode_dot", "cp_mode_dot_inplace"):
-        mode = g.int(0, 2)
+        mode = g.int(0, nd - 1)
         m = g.arr((shape[mode],)) if g.flag(0.4) else g.arr((2, shape[mode]))
         kw = dict(cp_tensor=cp, matrix_or_vector=m, mode=mode, copy=which == "cp_mode_dot")
         g.opt(kw, "keep_dim", [True], 0.3)
@@ -1255,7 +1281,7 @@ def e_cpfun(g, which):
         return dict(fn=C.cp_lstsq_grad, kwargs=kw)
     obj = C.CPTensor(cp) if not isinstance(cp, C.CPTensor) else cp
     if which == "CPTensor.mode_dot":
-        mode = g.int(0, 2)
+        mode = g.int(0, nd - 1)
         return dict(
             fn=lambda cp_tensor, m, mode: cp_tensor.mode_dot(m, mode, copy=True),
             kwargs=dict(cp_tensor=obj, m=g.arr((2, shape[mode])), mode=mode),
@@ -1712,8 +1738,8 @@ def e_svdinit(g, which):
     if which == "partial_tucker":
         return dict(fn=D.partial_tucker, kwargs=dict(tensor=tensor, rank=[rank, rank], modes=[0, 1], n_iter_max=it, init="svd", svd=svd))
     if which == "parafac2":
-        kw = dict(tensor_slices=_slices(g, 3, 3, [4, 4, 4]), rank=g.choice([2, 1]), n_iter_max=it, init="svd", svd=svd)
-        g.opt(kw, "linesearch", [False], 0.4)
+        kw = dict(tensor_slices=_slices(g, 3, 3, [4, 4, 4]), rank=g.choice([2, 1, 3]), n_iter_max=g.iters([it], [40, 12]), init="svd", svd=svd)
+        g.opt(kw, "linesearch", [False], 0.3)
         return dict(fn=D.parafac2, kwargs=kw)
     if which == "CP":
         return dict(fn=lambda tensor, **o: D.CP(**o).fit_transform(tensor), kwargs=dict(tensor=tensor, rank=rank, n_iter_max=it, init="svd", svd=svd))
@@ -1771,3 +1797,48 @@ def e_backendfun(g, which):
 
 
 split_entry("tl", e_backendfun, _BACKENDFUN, deterministic=True)
+
+
+# =============================================================== long runs on over-parameterised exact data
+# Iteration-gated and failure-gated paths (line search after sweep 5, repeated failed line-search steps,
+# stagnation, early convergence) need exactly low-rank data, a rank above the true one and dozens of sweeps.
+
+
+@entry("parafac2_longrun", seeded=True, groups=("c16",))
+def e_parafac2_long(g):
+    import tensorly.decomposition as D
+    from tensorly.random import random_parafac2
+    from tensorly.parafac2_tensor import parafac2_to_slices
+
+    true_rank = g.choice([1, 2])
+    rank = true_rank + g.choice([1, 2])
+    J = g.choice([3, 5])
+    shapes = [(g.choice([4, 6]) + i, J) for i in range(3)]
+    model = random_parafac2(shapes, true_rank, random_state=np.random.RandomState(3 + g.int(0, 2)))
+    slices = [np.array(x) for x in parafac2_to_slices(model)]
+    kw = dict(tensor_slices=slices, rank=rank, n_iter_max=g.choice([40, 100]), random_state=g.seed())
+    g.opt(kw, "init", ["svd"], 0.3)
+    g.opt(kw, "normalize_factors", [True], 0.2)
+    return dict(fn=D.parafac2, kwargs=kw)
+
+
+@entry("parafac_longrun", seeded=True, groups=("c16",))
+def e_parafac_long(g):
+    import tensorly.decomposition as D
+
+    shape = g.choice([(4, 5, 3), (5, 4, 4)])
+    true_rank = g.choice([1, 2])
+    rs = np.random.RandomState(5 + g.int(0, 2))
+    facs = [rs.random_sample((s, true_rank)) for s in shape]
+    t = np.zeros(shape)
+    for r in range(true_rank):
+        t += np.multiply.outer(np.multiply.outer(facs[0][:, r], facs[1][:, r]), facs[2][:, r])
+    kw = dict(tensor=t, rank=true_rank + g.choice([1, 2]), n_iter_max=g.choice([30, 60]), linesearch=True, random_state=g.seed())
+    g.opt(kw, "init", ["random"], 0.6)
+    g.opt(kw, "normalize_factors", [True], 0.2)
+    g.opt(kw, "tol", [0, 1e-12], 0.5)
+    return dict(fn=D.parafac, kwargs=kw)
+
+
+ENTRIES["parafac2_longrun"]["weight"] = 1
+ENTRIES["parafac_longrun"]["weight"] = 1
